@@ -528,6 +528,10 @@ class PSBaseParser:
                 # it by tacking on whitespace, and delay raising PSEOF
                 # until next time around
                 self.charpos = self._parse1(b"\n", 0)
+                if not self._tokens and not self.charpos:
+                    # Some states (e.g. after "#xx" in a name) hand over to
+                    # another state without consuming the whitespace.
+                    self.charpos = self._parse1(b"\n", 0)
                 self.eof = True
                 # Oh, so there wasn't actually a token there? OK.
                 if not self._tokens:
